@@ -115,6 +115,22 @@ theorem C03_breaks_deletionBatchKeyedById :
     recsAt w 0 = [(1, 12), (1, 13)] ∧ recsAt w 1 = [(1, 13)] ∧ recsAt w 2 = [(1, 13)] := by
   decide +kernel
 
+/-- a room with two entities; peer 1 updates a row of the second entity -/
+def firstEntityTrace : List Op :=
+  [.clock 1000, .write 0 (.new 1 1 1 1 11), .write 0 (.new 2 1 0 2 12), .compute 0, .pull 1 0 1,
+   .clock 2000, .write 1 (.upd 1 3 13 none), .compute 1, .settle 1 4]
+
+/-- **C03_breaks_summaryFirstEntityOnly** (new). The room summary exchanged at the start of a pull carries the
+    last-day log row of ONE entity (the first of the join); when that entity's hashes agree the pull stops,
+    although the daily hashes of the other entity differ: the update of the second entity never travels.
+    Quiescent, not converged. With the full history compared it does. -/
+theorem C03_breaks_summaryFirstEntityOnly :
+    let w := World.run Defects.asImplemented (World.init [true, true]) firstEntityTrace
+    rowsAt w 0 = [(1, 1000, 11), (2, 1000, 12)] ∧ rowsAt w 1 = [(1, 2000, 13), (2, 1000, 12)] ∧
+    let w' := World.run { Defects.asImplemented with summaryFirstEntityOnly := false } (World.init [true, true]) firstEntityTrace
+    rowsAt w' 0 = [(1, 2000, 13), (2, 1000, 12)] ∧ rowsAt w' 1 = [(1, 2000, 13), (2, 1000, 12)] := by
+  decide +kernel
+
 /-- one deletion, two pull orders -/
 def deletionOrderA : List Op :=
   [.clock 1000, .write 0 (.new 1 1 0 1 11), .compute 0, .pull 1 0 1, .pull 2 0 1,
